@@ -409,7 +409,7 @@ pub fn family2(prop: &str, i: u64, rng: &mut Rng, out: &mut Outcome, dir: &std::
 
 pub fn run(ctx: &Ctx) -> i32 {
     let dir = ctx.scratch_dir("c05");
-    let n = ctx.budget(900, 40_000) as u64;
+    let n = ctx.budget(6000, 80_000) as u64;
     let out = crate::par::run(ctx, n, std::time::Duration::from_secs(ctx.tier.pick(60, 900)), |i, rng, out| {
         if i % 3 == 2 { family2(&ctx.prop, i, rng, out, &dir) } else { family1(&ctx.prop, i, rng, out, &dir) }
     });
